@@ -497,7 +497,11 @@ def reconstruct (raw : List SNote) (ts : List TSLine) (ks : List (Rat × Int)) :
   let ns := sortSNotes ((List.range raw.length).zip raw)
   let first ← ns.head?
   let _ ← ts.head?
-  let maxTime := (ns.map (·.2.offsetB)).foldl max first.2.offsetB
+  -- the closing point of the signature maps: the last note, or the last time signature if that is later (fix C08-16)
+  let maxNote := (ns.map (·.2.offsetB)).foldl max first.2.offsetB
+  let maxTime := match ts.getLast? with
+    | some s => if maxNote < s.timeB then s.timeB else maxNote
+    | none => maxNote
   let divs := importDivs ts maxTime (ns.map (·.2))
   let minB := (ns.map (·.2.onsetB)).foldl min first.2.onsetB   -- np.unique(...)[0]
   let t := beatsToQuarters ts first.2.onsetB                     -- min_time = snotes[0].OnsetInBeats
